@@ -452,6 +452,7 @@ fn eval_ops_inner(req: &str) -> ImplOut {
         return ImplOut::new("pre-mismatch".into()).tag("pre-mismatch");
     }
     let pre_resolved = state_str(&model, true);
+    let kind_tags = node_kind_tags(&format!("{} {}", f[5], f[6]));
     let pre_obs = observe(&model);
     let pre_names: Vec<String> = model.workbook.worksheets.iter().map(|w| w.name.clone()).collect();
     let pre_ids: Vec<u32> = model.workbook.worksheets.iter().map(|w| w.sheet_id).collect();
@@ -483,6 +484,9 @@ fn eval_ops_inner(req: &str) -> ImplOut {
         }
         Ok(()) => {
             out = ImplOut::new(format!("ok {}", state_str(m, true))).tag(&format!("{opname}:ok"));
+            for t in &kind_tags {
+                out = out.tag(t);
+            }
         }
     }
     let post_obs = observe(m);
@@ -636,6 +640,35 @@ fn eval_ops_inner(req: &str) -> ImplOut {
     out
 }
 
+/// which composite node kinds occur in the stored formulas / names of a request (distribution histogram)
+pub(crate) fn node_kind_tags(trees: &str) -> Vec<String> {
+    let mut v: Vec<String> = vec![];
+    for t in trees.split(|c| c == ',' || c == ';' || c == '/' || c == ' ' || c == ':') {
+        let g: Vec<&str> = t.split('|').collect();
+        if g[0] == "o" && g.len() == 3 {
+            let tag = unhex(g[1]).unwrap_or_default();
+            let k = if tag.starts_with("NF") {
+                "unknown-call".to_string()
+            } else if tag.starts_with('F') {
+                "call".to_string()
+            } else if tag.starts_with("lambda") {
+                "lambda-def".to_string()
+            } else if tag == "call" {
+                "lambda-call".to_string()
+            } else if tag == "range" {
+                "range-operator".to_string()
+            } else {
+                tag
+            };
+            let k = format!("kind:{k}");
+            if !v.contains(&k) {
+                v.push(k);
+            }
+        }
+    }
+    v
+}
+
 /// as `refs_of_display`, for the workbook before the operation (only its names/ids/defined names are left)
 fn refs_of_display_names(
     names: &[String],
@@ -703,6 +736,131 @@ fn looks_like_ref(n: &str) -> bool {
     }
 }
 
+/// Context of the deep expression generator.
+pub(crate) struct DeepEnv<'a> {
+    pub sheets: &'a [String],
+    pub own: usize,
+    pub sum: &'a str,
+    pub iff: &'a str,
+    pub sep: &'a str,
+    /// spellings of reference-valued defined names (no LAMBDA names)
+    pub names: Vec<String>,
+}
+
+fn deep_prefix(rng: &mut Rng, e: &DeepEnv) -> String {
+    match rng.below(10) {
+        0 => String::new(),
+        1 => {
+            let g: &str = *rng.pick(GHOSTS);
+            format!("{}!", quote(g))
+        }
+        2 => format!("{}!", quote(&e.sheets[e.own])),
+        _ => {
+            let g: String = rng.pick(e.sheets).clone();
+            format!("{}!", quote(&g))
+        }
+    }
+}
+fn deep_cell(rng: &mut Rng) -> String {
+    let c = ["A", "B"][rng.below(2) as usize];
+    let r = rng.range(1, 3);
+    match rng.below(4) {
+        0 => format!("${c}${r}"),
+        1 => format!("{c}${r}"),
+        _ => format!("{c}{r}"),
+    }
+}
+fn deep_ref(rng: &mut Rng, e: &DeepEnv) -> String {
+    format!("{}{}", deep_prefix(rng, e), deep_cell(rng))
+}
+/// a sheet-QUALIFIED reference (the right operand of a ':' operator must not glue to its left neighbour)
+fn deep_qref(rng: &mut Rng, e: &DeepEnv) -> String {
+    let g: String = rng.pick(e.sheets).clone();
+    format!("{}!{}", quote(&g), deep_cell(rng))
+}
+fn deep_range(rng: &mut Rng, e: &DeepEnv) -> String {
+    format!("{}A1:{}", deep_prefix(rng, e), ["B2", "A3", "$B$3", "B1"][rng.below(4) as usize])
+}
+
+/// a term: something that needs no parentheses as an operand of any operator.
+/// Every node kind of `parser::Node` that has children occurs, with sheet references in every child
+/// position: function arguments at each index (also behind empty arguments, in nested calls and in
+/// unknown functions), both operands of the ':' operator between sub-expressions (`OpRangeKind`),
+/// `@` (ImplicitIntersection), `#` (SpillRangeOperator), unary minus and percent, LAMBDA bodies,
+/// LAMBDA call arguments.
+pub(crate) fn deep_term(rng: &mut Rng, d: u32, e: &DeepEnv) -> String {
+    let sep = e.sep;
+    if d == 0 {
+        return match rng.below(6) {
+            0 => format!("{}", rng.range(1, 9)),
+            1 if !e.names.is_empty() => e.names[rng.below(e.names.len() as u64) as usize].clone(),
+            _ => deep_ref(rng, e),
+        };
+    }
+    match rng.below(13) {
+        0 => deep_ref(rng, e),
+        1 => format!("-{}", deep_ref(rng, e)),
+        2 => format!("{}%", deep_ref(rng, e)),
+        3 => {
+            // SUM with 1..3 arguments, the reference-carrying one at a random position
+            let n = rng.range(1, 3);
+            let args: Vec<String> = (0..n)
+                .map(|_| if rng.chance(1, 3) { deep_range(rng, e) } else { deep_expr(rng, d - 1, e) })
+                .collect();
+            format!("{}({})", e.sum, args.join(sep))
+        }
+        4 => {
+            // IF with every argument position, sometimes an empty argument in front of the reference
+            match rng.below(3) {
+                0 => format!("{}({}{sep}{}{sep}{})", e.iff, deep_expr(rng, d - 1, e), deep_expr(rng, d - 1, e), deep_expr(rng, d - 1, e)),
+                1 => format!("{}({}{sep}{sep}{})", e.iff, deep_expr(rng, d - 1, e), deep_expr(rng, d - 1, e)),
+                _ => format!("{}({}>{}{sep}{})", e.iff, deep_term(rng, d - 1, e), deep_term(rng, d - 1, e), deep_expr(rng, d - 1, e)),
+            }
+        }
+        5 | 6 => {
+            // the ':' operator between sub-expressions: left operand a call (a bare reference would glue),
+            // right operand a call or a qualified reference
+            let l = format!("{}(1{sep}{}{sep}{})", e.iff, deep_ref(rng, e), deep_ref(rng, e));
+            let r = if rng.chance(1, 2) {
+                format!("{}(1{sep}{}{sep}{})", e.iff, deep_ref(rng, e), deep_ref(rng, e))
+            } else {
+                deep_qref(rng, e)
+            };
+            format!("{}({l}:{r})", e.sum)
+        }
+        7 => format!("@{}", deep_range(rng, e)),
+        8 => format!("{}#", deep_ref(rng, e)),
+        9 => {
+            // LAMBDA definition called in place: body and call arguments carry references
+            format!(
+                "LAMBDA(p{sep}q{sep}p+q*{})({}{sep}{})",
+                deep_term(rng, d - 1, e),
+                deep_expr(rng, d - 1, e),
+                deep_term(rng, d - 1, e)
+            )
+        }
+        10 => format!("FOOBAR({}{sep}{})", deep_expr(rng, d - 1, e), deep_expr(rng, d - 1, e)),
+        11 => format!("{}({}({}){sep}{})", e.sum, e.sum, deep_range(rng, e), deep_term(rng, d - 1, e)),
+        _ => deep_range(rng, e).replace("A1:", "A2:"),
+    }
+}
+
+/// an expression: one term, or two terms under a binary operator (no nesting that needs parentheses)
+pub(crate) fn deep_expr(rng: &mut Rng, d: u32, e: &DeepEnv) -> String {
+    let a = deep_term(rng, d, e);
+    match rng.below(9) {
+        0 => a,
+        1 => format!("{a}+{}", deep_term(rng, d, e)),
+        2 => format!("{a}-{}", deep_term(rng, d, e)),
+        3 => format!("{a}*{}", deep_term(rng, d, e)),
+        4 => format!("{a}/{}", deep_term(rng, d, e)),
+        5 => format!("{}^{}", deep_ref(rng, e), deep_ref(rng, e)),
+        6 => format!("{a}&{}", deep_term(rng, d, e)),
+        7 => format!("{a}{}{}", ["=", "<", ">=", "<>"][rng.below(4) as usize], deep_term(rng, d, e)),
+        _ => a,
+    }
+}
+
 pub(crate) fn gen_spec(rng: &mut Rng, lang: &str, locale: &str) -> Spec {
     gen_spec_with(rng, lang, locale, false)
 }
@@ -740,28 +898,7 @@ pub(crate) fn gen_spec_with(rng: &mut Rng, lang: &str, locale: &str, pair: bool)
             }
         }
     }
-    // defined names
-    let name_pool = ["total", "rate", "Zed", "in_put", "lam"];
-    let n_names = rng.below(4) as usize;
-    for k in 0..n_names {
-        // mostly distinct spellings; sometimes the same spelling again in another scope (shadowing)
-        let name = if k > 0 && rng.chance(1, 3) { sp.names[0].0.clone() } else { name_pool[k].to_string() };
-        let name = if rng.chance(1, 6) { name.to_uppercase() } else { name };
-        let scope = if rng.chance(1, 2) { None } else { Some(rng.below(n_sheets as u64) as u32) };
-        if sp.names.iter().any(|(n, s, _)| n.to_uppercase() == name.to_uppercase() && *s == scope) {
-            continue;
-        }
-        let target = if rng.chance(1, 8) { rng.pick(GHOSTS).to_string() } else { rng.pick(&sheets).clone() };
-        let formula = if name.to_lowercase() == "lam" {
-            format!("=LAMBDA(x{sep}x+{}!$A$1)", quote(&target))
-        } else if rng.chance(1, 2) {
-            format!("{}!$A$1", quote(&target))
-        } else {
-            format!("{}!$A$1:$B$2", quote(&target))
-        };
-        sp.names.push((name, scope, formula));
-    }
-    // formulas
+    // localized function names
     let sum = match lang {
         "es" => "SUMA",
         "fr" => "SOMME",
@@ -776,6 +913,36 @@ pub(crate) fn gen_spec_with(rng: &mut Rng, lang: &str, locale: &str, pair: bool)
         "it" => "SE",
         _ => "IF",
     };
+    // defined names
+    let name_pool = ["total", "rate", "Zed", "in_put", "lam"];
+    let n_names = rng.below(4) as usize;
+    for k in 0..n_names {
+        // mostly distinct spellings; sometimes the same spelling again in another scope (shadowing)
+        let name = if k > 0 && rng.chance(1, 3) { sp.names[0].0.clone() } else { name_pool[k].to_string() };
+        let name = if rng.chance(1, 6) { name.to_uppercase() } else { name };
+        let scope = if rng.chance(1, 2) { None } else { Some(rng.below(n_sheets as u64) as u32) };
+        if sp.names.iter().any(|(n, s, _)| n.to_uppercase() == name.to_uppercase() && *s == scope) {
+            continue;
+        }
+        let target = if rng.chance(1, 8) { rng.pick(GHOSTS).to_string() } else { rng.pick(&sheets).clone() };
+        let formula = if name.to_lowercase() == "lam" {
+            let env = DeepEnv { sheets: &sheets, own: 0, sum, iff, sep, names: vec![] };
+            if rng.chance(1, 2) {
+                {
+                    let d = 1 + rng.below(2) as u32;
+                    format!("=LAMBDA(x{sep}x+{})", deep_term(rng, d, &env))
+                }
+            } else {
+                format!("=LAMBDA(x{sep}x+{}!$A$1)", quote(&target))
+            }
+        } else if rng.chance(1, 2) {
+            format!("{}!$A$1", quote(&target))
+        } else {
+            format!("{}!$A$1:$B$2", quote(&target))
+        };
+        sp.names.push((name, scope, formula));
+    }
+    // formulas
     for s in 0..n_sheets {
         let n_f = rng.range(1, 5);
         for k in 0..n_f {
@@ -800,7 +967,14 @@ pub(crate) fn gen_spec_with(rng: &mut Rng, lang: &str, locale: &str, pair: bool)
             let rg = |rng: &mut Rng, prefix: &mut dyn FnMut(&mut Rng) -> String| {
                 format!("{}A1:{}", prefix(rng), ["B2", "A3", "$B$3", "B1"][rng.below(4) as usize])
             };
-            let text = match rng.below(9) {
+            let deep_names: Vec<String> =
+                sp.names.iter().filter(|(n, _, _)| n.to_lowercase() != "lam").map(|(n, _, _)| n.clone()).collect();
+            let env = DeepEnv { sheets: &sheets, own: s, sum, iff, sep, names: deep_names };
+            let text = match rng.below(14) {
+                9..=13 => {
+                    let d = 1 + rng.below(3) as u32;
+                    format!("={}", deep_expr(rng, d, &env))
+                }
                 0 => format!("={}", rf(rng, &mut prefix)),
                 1 => format!("={}+{}", rf(rng, &mut prefix), rf(rng, &mut prefix)),
                 2 => format!("={sum}({})", rg(rng, &mut prefix)),
@@ -866,6 +1040,31 @@ fn gen_ops(ctx: &Ctx, sink: &mut dyn FnMut(String)) {
     };
     emit(&w, &Op::Rename(1, "Renamed".into()), "m", sink);
     emit(&w, &Op::Dup(0), "u", sink);
+    // regression corpus: the renamed sheet referenced from BOTH operands of a ':' operator between calls
+    // (OpRangeKind), under @, #, unary operators, in every argument position, in a LAMBDA body and call
+    let w2 = Spec {
+        lang: "en".into(),
+        locale: "en".into(),
+        sheets: vec!["Sheet1".into(), "Sheet2".into()],
+        cells: vec![
+            (1, 1, 1, "1".into()),
+            (1, 2, 1, "2".into()),
+            (1, 3, 1, "3".into()),
+            (0, 1, 1, "=SUM(OFFSET(Sheet2!A1,0,0):OFFSET(Sheet2!A1,2,0))".into()),
+            (0, 2, 1, "=SUM(IF(1,Sheet2!A1,Sheet2!A2):Sheet2!A3)".into()),
+            (0, 3, 1, "=-Sheet2!A1+Sheet2!A2%+SUM(@Sheet2!A1:A3)".into()),
+            (0, 4, 1, "=IF(Sheet2!A1>Sheet2!A2,,Sheet2!A3)&Sheet2!A1^Sheet2!A2".into()),
+            (0, 5, 1, "=LAMBDA(p,q,p+q*Sheet2!A2)(Sheet2!A1,Sheet2!A3)".into()),
+            (0, 6, 1, "=FOOBAR(1,Sheet2!A1)+SUM(1,SUM(2,Sheet2!A1:A3))".into()),
+            (0, 7, 1, "=Sheet2!A1#".into()),
+            (1, 5, 1, "=SUM(OFFSET(Sheet2!A1,0,0):OFFSET(A1,2,0))".into()),
+        ],
+        names: vec![("lam".into(), None, "=LAMBDA(x,x+SUM(IF(1,Sheet2!A1,Sheet2!A2):IF(1,Sheet2!A2,Sheet2!A3)))".into())],
+    };
+    emit(&w2, &Op::Rename(1, "Data".into()), "m", sink);
+    emit(&w2, &Op::Rename(1, "My Data".into()), "u", sink);
+    emit(&w2, &Op::Dup(1), "m", sink);
+    emit(&w2, &Op::Move(1, 0), "u", sink);
     for k in 0..n {
         if k % 25 == 0 {
             // duplicate a sheet whose first candidate name is taken
